@@ -21,7 +21,8 @@ func ProcessProfile(profileText string, debug bool, eventChan *chan e.Event) (*r
 	return CompileRego(regoUnit, eventChan)
 }
 
-func GenerateRego(profileText string, debug bool, eventChan *chan e.Event) (*generator.RegoUnit, error) {
+func GenerateRego(profileText string, debug bool, eventChan *chan e.Event) (unit *generator.RegoUnit, err error) {
+	defer recoverAsError(&err)
 	// Parse profile
 	dispatchEvent(e.NewEvent(e.ProfileParsingStart), eventChan)
 	parsed, err := parser.Parse(profileText)
